@@ -273,6 +273,14 @@ def toParameterValue (ops : NumOps α) (cfg : Cfg) (d : Domain α) (v : α) :
     | .discrete vs => .ok ((nearest ops v (vs.map fun x => (ops.cast x, x))).map .dbl)
     | .categorical _ => .error "categorical parameter with a continuous spec"
 
+/-- the value handed to `_to_parameter_value`: (fixed variant only: clip in the scaled space
+when `should_clip`), then the scaler's backward function -/
+def unscale (ops : NumOps α) (cfg : Cfg) (b : Branch) (low high y : α) : α :=
+  let ob := outBounds ops b low high
+  let y' := if cfg.clipScaled && cfg.shouldClip && cfg.scale && ops.finite y
+            then clip ops y ob.1 ob.2 else y
+  bwd ops b low high y'
+
 def decodeBlock (ops : NumOps α) (cfg : Cfg) (p : Param α) (block : List (Feat α)) :
     Except String (Option (PVal α)) :=
   match specOf ops cfg p with
@@ -280,11 +288,7 @@ def decodeBlock (ops : NumOps α) (cfg : Cfg) (p : Param α) (block : List (Feat
     let b := branch ops cfg.scale low high p.scale
     if b = .invalid then .error "ValueError: log scale bounds" else
     match block with
-    | [.num y] =>
-      let ob := outBounds ops b low high
-      let y' := if cfg.clipScaled && cfg.shouldClip && cfg.scale && ops.finite y
-                then clip ops y ob.1 ob.2 else y
-      toParameterValue ops cfg p.dom (bwd ops b low high y')
+    | [.num y] => toParameterValue ops cfg p.dom (unscale ops cfg b low high y)
     | _ => .error "shape"
   | .index n =>
     if cfg.onehot then
